@@ -38,6 +38,21 @@ func idxT(dt string, shape []int, v []int) *TJ {
 }
 
 func genC08(e *emitter, tier string) {
+	// strided slices of LONGER vectors and matrices whose extent along the sliced axis is a multiple of the step
+	// (outside the regions of the recorded Slice findings: results of extent 1, a remainder on axis 0): results of
+	// 2-4 elements taken from a span that is longer than the result
+	for _, cfg := range []struct {
+		shape           []int
+		st, en, ax, stp int
+	}{{[]int{6}, 0, 6, 0, 2}, {[]int{6}, 0, 6, 0, 3}, {[]int{8}, 2, 8, 0, 2}, {[]int{9}, 0, 9, 0, 3}, {[]int{8}, 0, 8, 0, 4}, {[]int{6}, -6, 6, 0, 2},
+		{[]int{2, 6}, 0, 6, 1, 2}, {[]int{2, 6}, 0, 6, -1, 3}, {[]int{3, 8}, 2, 8, 1, 3}, {[]int{2, 2, 6}, 0, 6, 2, 2}, {[]int{2, 2, 6}, 0, 6, -1, 2}, {[]int{4, 3}, 0, 4, 0, 2}} {
+		for _, dt := range []string{"f32", "i64"} {
+			x := seqT(dt, cfg.shape, func(i int) float64 { return float64(10 + i) })
+			e.emit(opCase("slice-strided-long", "Slice", nil, []*TJ{x, idxT("i64", []int{1}, []int{cfg.st}), idxT("i64", []int{1}, []int{cfg.en}), idxT("i64", []int{1}, []int{cfg.ax}), idxT("i64", []int{1}, []int{cfg.stp})}, nil))
+		}
+	}
+	// Shape -> Slice chains as exporters write them (the shape vector of a rank-4 tensor, every second entry)
+	e.emit(opCase("slice-strided-long", "Slice", nil, []*TJ{idxT("i64", []int{4}, []int{2, 3, 4, 5}), idxT("i64", []int{1}, []int{0}), idxT("i64", []int{1}, []int{4}), idxT("i64", []int{1}, []int{0}), idxT("i64", []int{1}, []int{2})}, nil))
 	R, E := 3, 3
 	if tier == "thorough" {
 		R, E = 4, 3
